@@ -182,6 +182,7 @@ func init() { vstat.Register(uC14, runC14) }
 
 func TestVerifC14HTTP(t *testing.T) {
 	defer uC14.Flush()
+	wedgeUnit = uC14
 	rapid.Check(t, func(rt *rapid.T) {
 		var sc scenario
 		var labels []string
@@ -296,6 +297,7 @@ func init() { vstat.Register(uLegacy, runLegacy) }
 
 func TestVerifC14Legacy(t *testing.T) {
 	defer uLegacy.Flush()
+	wedgeUnit = uLegacy
 	rapid.Check(t, func(rt *rapid.T) {
 		var c legacyCase
 		noise := strings.ToValidUTF8(rapid.OneOf(rapid.SampledFrom([]string{"v=0", "", "\"", "\n"}), rapid.StringN(0, 20, -1)).Draw(rt, "noise"), "?")
@@ -405,6 +407,7 @@ func init() { vstat.Register(uAMP, runAMPEquiv) }
 
 func TestVerifC11AMPEquiv(t *testing.T) {
 	defer uAMP.Flush()
+	wedgeUnit = uAMP
 	rapid.Check(t, func(rt *rapid.T) {
 		var c ampCase
 		valid := validBodies()["client"]
